@@ -563,6 +563,9 @@ func (r *runner) doOpen(st *step) {
 	r.h.net.notifyConnected(fc)
 	r.waits = append(r.waits, waitRec{r.ids.IdentifyWait(fc), cs.waitBound, fmt.Sprintf("IdentifyWait(conn %d) at open", st.conn)})
 	r.label("remote:" + remoteClassNames[st.remoteClass])
+	if st.limited {
+		r.label("conn:limited")
+	}
 }
 
 func (r *runner) doPush(st *step) {
